@@ -15,8 +15,8 @@ import (
 	"errors"
 	"fmt"
 	"io"
-	"reflect"
 	"math"
+	"reflect"
 	"strings"
 	"sync"
 	"testing"
@@ -49,9 +49,9 @@ type c05Spec struct {
 	Ops       []c05Op    `json:"ops"`
 	Faults    []c05Fault `json:"faults,omitempty"`
 	Waiters   int        `json:"waiters"`
-	Version   string     `json:"version,omitempty"` // requested protocol version ("" = the client's default)
-	KeepAlive string     `json:"keepalive,omitempty"`   // "", client, server, both: keep-alive (1 s) configured on that side
-	FinalBy   string     `json:"final_by,omitempty"`    // "" (both), client, server: who calls Close at the end; the other side only waits
+	Version   string     `json:"version,omitempty"`   // requested protocol version ("" = the client's default)
+	KeepAlive string     `json:"keepalive,omitempty"` // "", client, server, both: keep-alive (1 s) configured on that side
+	FinalBy   string     `json:"final_by,omitempty"`  // "" (both), client, server: who calls Close at the end; the other side only waits
 }
 
 func genC05(r *vh.Rand, idx int) c05Spec {
